@@ -118,6 +118,76 @@ fn run_command(cmd: &str, outs: &[String], expect_runs: usize) -> LoopResult {
     res
 }
 
+/// ServerSignals.tla against a real `routinator server` child (forced run outcomes, refresh 3 s):
+/// SIGUSR2 two seconds into the wait must not move the next run (it comes 3 s after the last one, not 5 s),
+/// SIGUSR1 must start a run at once.  Not one of the listed properties: mismatches are divergences.
+fn signals_probe(rep: &mut Report) {
+    use nix::sys::signal::{kill, Signal};
+    use nix::unistd::Pid;
+    let dir = tempfile::Builder::new().prefix("vh-sig-").tempdir().expect("tempdir");
+    let cache = dir.path().join("cache");
+    let tals = dir.path().join("tals");
+    std::fs::create_dir_all(&cache).unwrap();
+    std::fs::create_dir_all(&tals).unwrap();
+    let runlog = dir.path().join("runs.log");
+    let argv: Vec<String> = vec![
+        "routinator".into(), "--repository-dir".into(), cache.to_string_lossy().into(),
+        "--no-rir-tals".into(), "--extra-tals-dir".into(), tals.to_string_lossy().into(),
+        "--disable-rsync".into(), "--disable-rrdp".into(), "-qq".into(),
+        "server".into(), "--refresh".into(), "3".into(),
+    ];
+    let argv_file = dir.path().join("argv.json");
+    std::fs::write(&argv_file, serde_json::to_string(&argv).unwrap()).unwrap();
+    let exe = std::env::current_exe().unwrap();
+    let mut child = match Command::new(exe).arg("runloop").arg("--opt").arg(format!("child={}", argv_file.display()))
+        .env("VERIF_OUTCOMES", "ok").env("VERIF_RUNLOG", &runlog).current_dir(dir.path())
+        .stdout(Stdio::null()).stderr(Stdio::null()).spawn() { Ok(c) => c, Err(_) => return };
+    let pid = Pid::from_raw(child.id() as i32);
+    // waits until the run log has n lines; returns the time that took
+    let wait_runs = |n: usize, limit: Duration| -> Option<Duration> {
+        let t = Instant::now();
+        while t.elapsed() < limit {
+            if runlog_lines(&runlog) >= n { return Some(t.elapsed()) }
+            std::thread::sleep(Duration::from_millis(10));
+        }
+        None
+    };
+    let mut notes = serde_json::Map::new();
+    let res: Result<(), String> = (|| {
+        wait_runs(2, Duration::from_secs(20)).ok_or("the server did not complete its first two runs")?;
+        let t_last = Instant::now();                       // run 2 (the first regular one) has just started; it takes no time
+        std::thread::sleep(Duration::from_millis(2000));
+        kill(pid, Signal::SIGUSR2).map_err(|e| e.to_string())?;
+        wait_runs(3, Duration::from_secs(8)).ok_or("no third run within 8 s")?;
+        let gap = t_last.elapsed().as_millis() as i64;
+        notes.insert("usr2_run_gap_ms".into(), json!(gap));
+        if !(2400..=4200).contains(&gap) {
+            return Err(format!("SIGUSR2 two seconds into a 3 s wait: the next run came {gap} ms after the previous one (expected about 3000)"))
+        }
+        std::thread::sleep(Duration::from_millis(500));
+        kill(pid, Signal::SIGUSR1).map_err(|e| e.to_string())?;
+        let took = wait_runs(4, Duration::from_millis(1500)).ok_or("SIGUSR1 half a second into a 3 s wait: no run within 1.5 s")?;
+        notes.insert("usr1_run_after_ms".into(), json!(took.as_millis() as i64));
+        // several SIGUSR1 at once: at least one, at most as many runs, all at once
+        for _ in 0..3 { kill(pid, Signal::SIGUSR1).map_err(|e| e.to_string())?; }
+        wait_runs(5, Duration::from_millis(1500)).ok_or("three SIGUSR1: no run within 1.5 s")?;
+        std::thread::sleep(Duration::from_millis(600));
+        let extra = runlog_lines(&runlog) - 4;
+        notes.insert("runs_after_three_usr1".into(), json!(extra));
+        if extra > 3 { return Err(format!("three SIGUSR1 started {extra} runs")) }
+        Ok(())
+    })();
+    let alive = matches!(child.try_wait(), Ok(None));
+    let _ = child.kill();
+    let _ = child.wait();
+    rep.note("C32", "server_signals", json!(notes));
+    match res {
+        Ok(()) if alive => rep.add_note("C32", "server_signal_probes_conforming", 1),
+        Ok(()) => rep.divergence("C32", "ServerSignals: the server exited during the signal probe"),
+        Err(e) => rep.divergence("C32", format!("ServerSignals: {e}")),
+    }
+}
+
 pub fn main(args: &Args) -> i32 {
     if let Some(file) = args.opt("child") {
         return cli_child(file)
@@ -215,6 +285,8 @@ pub fn main(args: &Args) -> i32 {
             }
         }
     }
+
+    if args.wants("C32") { signals_probe(&mut rep); }
 
     // ---------------- C33
     if args.wants("C33") {
